@@ -1,0 +1,173 @@
+//! Deterministic-simulation hooks for the proof checker (compiled only with
+//! the `verif-hooks` feature): re-check a proof against an altered checking
+//! program, and apply a single-point alteration to a proof object.
+
+use crate::ast::{GenericNCommand, ResolvedNCommand};
+use crate::proof::{Justification, ProofId, ProofStore};
+use crate::{EGraph, Term};
+
+/// How the checking program is altered before a proof is re-checked.
+#[derive(Clone, Debug)]
+pub enum ProgramAlteration {
+    /// the e-graph's own checking program
+    None,
+    /// without the rule of this name
+    DropRule(String),
+    /// without any top-level action (facts, unions, sets, global definitions)
+    DropActions,
+    /// without the k-th command
+    DropCommand(usize),
+}
+
+impl EGraph {
+    /// The commands of the proof-checking program, printed.
+    pub fn verif_proof_program(&self) -> Vec<String> {
+        self.proof_check_program
+            .iter()
+            .map(|c| c.to_command().to_string())
+            .collect()
+    }
+
+    /// Check `proof` (in a copy of `store`) against the checking program after `alteration`.
+    pub fn verif_check_proof(
+        &self,
+        store: &ProofStore,
+        proof: ProofId,
+        alteration: &ProgramAlteration,
+    ) -> Result<(), String> {
+        let program: Vec<ResolvedNCommand> = match alteration {
+            ProgramAlteration::None => self.proof_check_program.clone(),
+            ProgramAlteration::DropRule(name) => self
+                .proof_check_program
+                .iter()
+                .filter(|c| !matches!(c, GenericNCommand::NormRule { rule } if &rule.name == name))
+                .cloned()
+                .collect(),
+            ProgramAlteration::DropActions => self
+                .proof_check_program
+                .iter()
+                .filter(|c| !matches!(c, GenericNCommand::CoreAction(_)))
+                .cloned()
+                .collect(),
+            ProgramAlteration::DropCommand(k) => self
+                .proof_check_program
+                .iter()
+                .enumerate()
+                .filter(|(i, _)| i != k)
+                .map(|(_, c)| c.clone())
+                .collect(),
+        };
+        let mut store = store.clone();
+        store
+            .check_proof(proof, &program)
+            .map(|_| ())
+            .map_err(|e| e.to_string())
+    }
+}
+
+impl ProofStore {
+    /// Every proof reachable from `root` (including it).
+    pub fn verif_reachable(&self, root: ProofId) -> Vec<ProofId> {
+        let mut seen = vec![root];
+        let mut i = 0;
+        while i < seen.len() {
+            let kids: Vec<ProofId> = match self.get(seen[i]).justification() {
+                Justification::Rule { premise_proofs, .. } => premise_proofs.clone(),
+                Justification::MergeFn {
+                    old_proof,
+                    new_proof,
+                    ..
+                } => vec![*old_proof, *new_proof],
+                Justification::Trans(a, b) => vec![*a, *b],
+                Justification::Sym(a) => vec![*a],
+                Justification::Congr {
+                    proof, child_proof, ..
+                } => vec![*proof, *child_proof],
+                Justification::ContainerNormalize { proof } => vec![*proof],
+                Justification::Fiat | Justification::Eval => vec![],
+            };
+            for k in kids {
+                if !seen.contains(&k) {
+                    seen.push(k);
+                }
+            }
+            i += 1;
+        }
+        seen
+    }
+
+    /// Alter one proof node in place so that its step is no longer justified.
+    /// Returns a description of what was done, or `None` if `node` offers no
+    /// alteration of that `kind` that is certainly unjustified.
+    ///
+    /// kinds: 0 swap the operands of a `Trans` whose proposition is not `t = t`;
+    /// 1 shift the child index of a `Congr` to a different argument; 2 drop a
+    /// premise of a `Rule`; 3 replace the right-hand side of a proposition by
+    /// its left-hand side's first child (a different term).
+    pub fn verif_mutate(&mut self, node: ProofId, kind: u32) -> Option<String> {
+        let proof = self.id_to_proof[node].clone();
+        match (kind, proof.justification()) {
+            (0, Justification::Trans(a, b)) if proof.lhs() != proof.rhs() && a != b => {
+                self.id_to_proof[node].justification = Justification::Trans(*b, *a);
+                Some(format!("swapped the operands of Trans at {node:?}"))
+            }
+            (
+                1,
+                Justification::Congr {
+                    proof: base,
+                    child_index,
+                    child_proof,
+                },
+            ) => {
+                let base_rhs = self.id_to_proof[*base].rhs();
+                let Term::App(_, args) = self.term_dag.get(base_rhs).clone() else {
+                    return None;
+                };
+                let j = (child_index + 1) % args.len().max(1);
+                if args.len() < 2 || args[j] == args[*child_index] {
+                    return None;
+                }
+                self.id_to_proof[node].justification = Justification::Congr {
+                    proof: *base,
+                    child_index: j,
+                    child_proof: *child_proof,
+                };
+                Some(format!(
+                    "moved the child index of Congr at {node:?} from {child_index} to {j}"
+                ))
+            }
+            (
+                2,
+                Justification::Rule {
+                    name,
+                    premise_proofs,
+                    substitution,
+                },
+            ) if !premise_proofs.is_empty() => {
+                let mut p = premise_proofs.clone();
+                p.pop();
+                self.id_to_proof[node].justification = Justification::Rule {
+                    name: name.clone(),
+                    premise_proofs: p,
+                    substitution: substitution.clone(),
+                };
+                Some(format!("dropped the last premise of rule {name} at {node:?}"))
+            }
+            (3, _) => {
+                let lhs = proof.lhs();
+                let Term::App(_, args) = self.term_dag.get(lhs).clone() else {
+                    return None;
+                };
+                let sub = *args.first()?;
+                if sub == proof.rhs() || sub == lhs {
+                    return None;
+                }
+                self.id_to_proof[node].proposition = crate::proof::Proposition::new(lhs, sub);
+                Some(format!(
+                    "replaced the right-hand side of the proposition at {node:?} by a subterm of its left-hand side"
+                ))
+            }
+            _ => None,
+        }
+    }
+}
